@@ -76,7 +76,8 @@ def generate(seed, tier):
             ops.append({'op': 'duplicate_key', 'direction': rng.choice(['OUTGOING', 'OUTGOING', 'INCOMING']), 'n': rng.randrange(100)})
         else:
             ops.append({'op': 'write_peers_crash', 'addr': rng.randrange(n_addr), 'preload': rng.choice([0, 1, 5, 99, 100, 130]),
-                        'damaged': rng.choice([None, None, 'torn', 'garbage', 'empty'])})
+                        'damaged': rng.choice([None, None, 'torn', 'garbage', 'empty']),
+                        'stamps': rng.choice(['old', 'mixed', 'future'])})
     if long_run:
         ops += [{'op': 'tick', 'dt': 7 * 86_400_000} for _ in range(10)]
     return {'config': {'addrs': addrs, 'long': long_run, 'slow': {'long': 1800, 'medium': 30, 'fine': 1}[scale], 'scale': scale,
@@ -356,7 +357,11 @@ def execute(script):
                 k.current = node
                 try:
                     orig_snap = fs.snapshot()
-                    pre = [['10.9.%d.%d' % (j // 250, j % 250), 2412, 'OUTGOING', '2023-01-01T00:00:00Z'] for j in range(op.get('preload', 0))]
+                    # (stamps of existing rows are whatever earlier sessions, other clocks or hand merges left: older, equal to or later
+                    #  than this node's clock now, or missing; the order of the file is the order of greeting, not of stamps)
+                    stamps = {'old': ['2023-01-01T00:00:00Z'], 'mixed': ['2023-01-01T00:00:00Z', '2999-12-31T23:59:59Z', '2999-12-31T23:59:59Z'],
+                              'future': ['2999-12-31T23:59:59Z']}[op.get('stamps', 'old')]
+                    pre = [['10.9.%d.%d' % (j // 250, j % 250), 2412, 'OUTGOING', stamps[j % len(stamps)]] for j in range(op.get('preload', 0))]
                     if pre:
                         fs.files['peers.json'] = json.dumps(pre).encode()
                     damaged = None
